@@ -31,14 +31,16 @@
 (*   EarlyTokPut     tokput before readtokens                                *)
 (*   UnguardedPaths  path cache accessed without pathsMu                     *)
 (*   SharedCurrent   the current template name is an engine-wide field       *)
+(*   BlindInsert     a load overwrites a registration that completed meanwhile *)
 (***************************************************************************)
 EXTENDS Integers, Sequences, FiniteSets, TLC, Json
 
 CONSTANTS NG,                 \* number of goroutines
-          Workload,           \* "cold" | "dirs" | "regrender" | "reload"
-          EarlyTokPut, UnguardedPaths, SharedCurrent
-VARIABLES pc, templates, tokFree, tokBuf, mytok, parsed, paths, cur, resolved, result, linver, hist
-vars == <<pc, templates, tokFree, tokBuf, mytok, parsed, paths, cur, resolved, result, linver, hist>>
+          Workload,           \* "cold" | "dirs" | "regrender" | "reload" | "regcold"
+          EarlyTokPut, UnguardedPaths, SharedCurrent,
+          BlindInsert         \* deviation: a load stores its result whatever the cache holds by then (the pinned tree)
+VARIABLES pc, templates, tokFree, tokBuf, mytok, parsed, paths, cur, resolved, result, linver, seen, hist
+vars == <<pc, templates, tokFree, tokBuf, mytok, parsed, paths, cur, resolved, result, linver, seen, hist>>
 
 G == 1..NG
 Toks == 1..NG
@@ -47,6 +49,9 @@ Op(g) == CASE Workload = "cold"  -> [kind |-> "render", n |-> "same", dir |-> "A
            [] Workload = "dirs"  -> [kind |-> "render", n |-> (IF g % 2 = 1 THEN "dirA/main" ELSE "dirB/main"), dir |-> (IF g % 2 = 1 THEN "A" ELSE "B"), v |-> 1]
            \* reload: version 1 is cached, the timestamp-aware loader has held version 2 (newer stamp) since before every call
            [] Workload = "reload" -> [kind |-> "render", n |-> "same", dir |-> "A", v |-> 2]
+           \* regcold: nothing is cached, the loader holds version 1; goroutine 1 registers version 2 while the others load
+           [] Workload = "regcold" -> IF g = 1 THEN [kind |-> "register", n |-> "same", dir |-> "A", v |-> 2]
+                                      ELSE [kind |-> "render", n |-> "same", dir |-> "A", v |-> 1]
            [] Workload = "regrender" -> IF g = 1 THEN [kind |-> "register", n |-> "same", dir |-> "A", v |-> 2]
                                         ELSE [kind |-> "render", n |-> "same", dir |-> "A", v |-> 1]
 Names == {Op(g).n : g \in G}
@@ -56,6 +61,7 @@ Init == /\ pc = [g \in G |-> IF SharedCurrent /\ Op(g).kind = "render" THEN "wri
         /\ templates = [n \in Names |-> IF Workload \in {"regrender", "reload"} THEN 1 ELSE 0]      \* version 1 is cached already
         /\ tokFree = Toks /\ tokBuf = [t \in Toks |-> 0] /\ mytok = [g \in G |-> 0] /\ parsed = [g \in G |-> 0]
         /\ paths = {} /\ cur = "" /\ resolved = [g \in G |-> ""] /\ result = [g \in G |-> 0] /\ linver = [g \in G |-> 0]
+        /\ seen = [g \in G |-> 0]            \* what the cache held for the name when the call looked it up
         /\ hist = <<>>
 
 \* hist records the steps at which the implementation has a gate (the others are local
@@ -66,52 +72,58 @@ Step(g, name) == hist' = IF name \in GateSteps THEN Append(hist, [g |-> g, s |->
 Goto(g, l) == pc' = [pc EXCEPT ![g] = l]
 
 WriteCur(g) == /\ pc[g] = "writecur" /\ cur' = Op(g).n /\ Goto(g, "lookup") /\ Step(g, "writecur")
-               /\ UNCHANGED <<templates, tokFree, tokBuf, mytok, parsed, paths, resolved, result, linver>>
+               /\ UNCHANGED <<templates, tokFree, tokBuf, mytok, parsed, paths, resolved, result, linver, seen>>
 Lookup(g) ==
     /\ pc[g] = "lookup" /\ Step(g, "lookup")
     \* auto-reload (workload reload): a cached copy older than what the loader holds is not a hit -- the call re-reads the loader
+    /\ seen' = [seen EXCEPT ![g] = templates[Op(g).n]]
     /\ IF templates[Op(g).n] # 0 /\ ~(Workload = "reload" /\ templates[Op(g).n] < LoaderVersion)
        THEN /\ Goto(g, "resolve") /\ linver' = [linver EXCEPT ![g] = templates[Op(g).n]]
        ELSE /\ Goto(g, "pathread") /\ UNCHANGED linver
     /\ UNCHANGED <<templates, tokFree, tokBuf, mytok, parsed, paths, cur, resolved, result>>
 PathRead(g) == /\ pc[g] = "pathread" /\ Step(g, "pathread")
                /\ Goto(g, IF Op(g).n \in paths THEN "tokget" ELSE "pathwrite")
-               /\ UNCHANGED <<templates, tokFree, tokBuf, mytok, parsed, paths, cur, resolved, result, linver>>
+               /\ UNCHANGED <<templates, tokFree, tokBuf, mytok, parsed, paths, cur, resolved, result, linver, seen>>
 PathWrite(g) == /\ pc[g] = "pathwrite" /\ Step(g, "pathwrite") /\ paths' = paths \cup {Op(g).n} /\ Goto(g, "tokget")
-                /\ UNCHANGED <<templates, tokFree, tokBuf, mytok, parsed, cur, resolved, result, linver>>
+                /\ UNCHANGED <<templates, tokFree, tokBuf, mytok, parsed, cur, resolved, result, linver, seen>>
 TokGet(g) == /\ pc[g] = "tokget" /\ Step(g, "tokget")
              /\ \E t \in tokFree : mytok' = [mytok EXCEPT ![g] = t] /\ tokFree' = tokFree \ {t}
              /\ Goto(g, "tokenize")
-             /\ UNCHANGED <<templates, tokBuf, parsed, paths, cur, resolved, result, linver>>
+             /\ UNCHANGED <<templates, tokBuf, parsed, paths, cur, resolved, result, linver, seen>>
 SourceOf(g) == IF Op(g).kind = "register" THEN 100 + Op(g).v ELSE 100 + LoaderVersion      \* what g tokenizes
 Tokenize(g) == /\ pc[g] = "tokenize" /\ Step(g, "tokenize")
                /\ tokBuf' = [tokBuf EXCEPT ![mytok[g]] = SourceOf(g) * 10 + g]      \* tagged with the writer
                /\ Goto(g, IF EarlyTokPut THEN "tokput" ELSE "readtokens")
-               /\ UNCHANGED <<templates, tokFree, mytok, parsed, paths, cur, resolved, result, linver>>
+               /\ UNCHANGED <<templates, tokFree, mytok, parsed, paths, cur, resolved, result, linver, seen>>
 ReadTokens(g) == /\ pc[g] = "readtokens" /\ Step(g, "readtokens")
                  /\ parsed' = [parsed EXCEPT ![g] = tokBuf[mytok[g]]]
                  /\ Goto(g, IF EarlyTokPut THEN "insert" ELSE "tokput")
-                 /\ UNCHANGED <<templates, tokFree, tokBuf, mytok, paths, cur, resolved, result, linver>>
+                 /\ UNCHANGED <<templates, tokFree, tokBuf, mytok, paths, cur, resolved, result, linver, seen>>
 TokPut(g) == /\ pc[g] = "tokput" /\ Step(g, "tokput")
              /\ tokFree' = tokFree \cup {mytok[g]}
              /\ Goto(g, IF EarlyTokPut THEN "readtokens" ELSE "insert")
-             /\ UNCHANGED <<templates, tokBuf, mytok, parsed, paths, cur, resolved, result, linver>>
+             /\ UNCHANGED <<templates, tokBuf, mytok, parsed, paths, cur, resolved, result, linver, seen>>
+\* a registration always stores; a load stores only if the cache still holds what the call saw when it looked the name
+\* up -- otherwise something more recent arrived in the meantime, and that is what the call hands out
 Insert(g) == /\ pc[g] = "insert" /\ Step(g, "insert")
-             /\ templates' = [templates EXCEPT ![Op(g).n] = parsed[g] \div 10 - 100]
-             /\ linver' = [linver EXCEPT ![g] = parsed[g] \div 10 - 100]
+             /\ IF BlindInsert \/ Op(g).kind = "register" \/ templates[Op(g).n] = seen[g]
+                THEN /\ templates' = [templates EXCEPT ![Op(g).n] = parsed[g] \div 10 - 100]
+                     /\ linver' = [linver EXCEPT ![g] = parsed[g] \div 10 - 100]
+                ELSE /\ UNCHANGED templates
+                     /\ linver' = [linver EXCEPT ![g] = templates[Op(g).n]]
              /\ Goto(g, IF Op(g).kind = "register" THEN "done" ELSE "resolve")
-             /\ UNCHANGED <<tokFree, tokBuf, mytok, parsed, paths, cur, resolved, result>>
+             /\ UNCHANGED <<tokFree, tokBuf, mytok, parsed, paths, cur, resolved, result, seen>>
 Resolve(g) == /\ pc[g] = "resolve" /\ Step(g, "resolve")
               /\ resolved' = [resolved EXCEPT ![g] = IF SharedCurrent THEN cur ELSE Op(g).n]
               /\ Goto(g, "render")
-              /\ UNCHANGED <<templates, tokFree, tokBuf, mytok, parsed, paths, cur, result, linver>>
+              /\ UNCHANGED <<templates, tokFree, tokBuf, mytok, parsed, paths, cur, result, linver, seen>>
 \* the relative include of the dirs workload looks its (already cached) target up: one more gate
 IncLookup(g) == /\ pc[g] = "inclookup" /\ Step(g, "lookup") /\ Goto(g, "done")
-                /\ UNCHANGED <<templates, tokFree, tokBuf, mytok, parsed, paths, cur, resolved, result, linver>>
+                /\ UNCHANGED <<templates, tokFree, tokBuf, mytok, parsed, paths, cur, resolved, result, linver, seen>>
 \* the template handed out by Load is rendered: what is rendered is what was current at the linearization point
 RenderBody(g) == /\ pc[g] = "render" /\ Step(g, "render")
                  /\ result' = [result EXCEPT ![g] = linver[g]] /\ Goto(g, IF Workload = "dirs" THEN "inclookup" ELSE "done")
-                 /\ UNCHANGED <<templates, tokFree, tokBuf, mytok, parsed, paths, cur, resolved, linver>>
+                 /\ UNCHANGED <<templates, tokFree, tokBuf, mytok, parsed, paths, cur, resolved, linver, seen>>
 
 Next == \E g \in G : WriteCur(g) \/ Lookup(g) \/ PathRead(g) \/ PathWrite(g) \/ TokGet(g) \/ Tokenize(g) \/ ReadTokens(g)
                      \/ TokPut(g) \/ Insert(g) \/ Resolve(g) \/ IncLookup(g) \/ RenderBody(g)
@@ -136,12 +148,15 @@ NoConflictingAccess ==
 TokensIntact == \A g \in G : parsed[g] # 0 => parsed[g] = SourceOf(g) * 10 + g
 RelativeNameOwn == \A g \in G : resolved[g] # "" => resolved[g] = Op(g).n
 SerialEquivalent == \A g \in G : (pc[g] = "done" /\ Op(g).kind = "render") =>
-                        result[g] \in (IF Workload = "regrender" THEN {1, 2} ELSE {LoaderVersion})
+                        result[g] \in (IF Workload \in {"regrender", "regcold"} THEN {1, 2} ELSE {LoaderVersion})
+\* once the registration has completed, the cache holds the registered version for good: no load that began before it may
+\* put an older source back (in every serial order of the calls the registered version is what remains)
+RegistrationLasts == \A g \in G : (Op(g).kind = "register" /\ pc[g] = "done") => templates[Op(g).n] = Op(g).v
 SingleOwner == \A g1, g2 \in G : g1 # g2 /\ mytok[g1] # 0 /\ mytok[g1] = mytok[g2] =>
                    (pc[g1] \in {"done", "insert", "resolve", "inclookup", "render"} \/ pc[g2] \in {"done", "insert", "resolve", "inclookup", "render"}
                     \/ (EarlyTokPut /\ FALSE))
 
-View == <<pc, templates, tokFree, tokBuf, mytok, parsed, paths, cur, resolved, result, linver>>     \* for configs that only check invariants
+View == <<pc, templates, tokFree, tokBuf, mytok, parsed, paths, cur, resolved, result, linver, seen>>     \* for configs that only check invariants
 \* ---- emission: complete schedules for gate replay ----------------------------------------------------
 Done == \A g \in G : pc[g] = "done"
 Emit == Done => PrintT(ToJson([prop |-> "C02", key |-> ToJson(hist), workload |-> Workload, ng |-> NG,
